@@ -50,6 +50,11 @@ def main():
             if m is None:
                 m = machines[mname] = runner.get_machine(mname)
             seed = h64(root, i)
+            try:
+                with open("current_run", "w") as _f:  # (cwd is this worker's scratch directory) read by the parent if the worker dies
+                    _f.write("%d %d" % (i, seed))
+            except OSError:
+                pass
             faulthandler.dump_traceback_later(per_run_cap, exit=True, file=sys.__stderr__)
             _t_run = time.time()
             try:
